@@ -460,7 +460,7 @@ theorem cinv_step0_call {s s' : St} {l : Label} (i : CInv s) (h : step0 s l = so
           ∀ s', (if viaCtx = true then
               some { (modCall (tail (if s.outCalls.contains n = true then retireIn { s with outCalls := s.outCalls.erase n } n (.err e) else s)) n
                         fun c => { c with pc := .fin, result := some (.err .ctx) }) with
-                      cnotifs := (tail (if s.outCalls.contains n = true then retireIn { s with outCalls := s.outCalls.erase n } n (.err e) else s)).cnotifs ++ [(n, { cancelFor := some n })] }
+                      cnotifs := (tail (if s.outCalls.contains n = true then retireIn { s with outCalls := s.outCalls.erase n } n (.err e) else s)).cnotifs ++ [{ cancelFor := some n }] }
             else some (modCall (tail (if s.outCalls.contains n = true then retireIn { s with outCalls := s.outCalls.erase n } n (.err e) else s)) n
                         fun c => { c with pc := .await })) = some s' → CInv s' := by
         intro e viaCtx hpc s' hs'
